@@ -75,6 +75,8 @@ class WakeQueue:
         self.tokens += 1
 
     def get(self, block=True, timeout=None):
+        if block and timeout is not None and us(timeout) < 0:
+            raise ValueError("'timeout' must be a non-negative number")      # exactly what queue.Queue.get does
         if self.tokens > 0:
             self.tokens -= 1
             self.last = ('woken',)
